@@ -197,6 +197,9 @@ def check_c14_maximal(ctx, sched, now, task_pl, offered):
                     if enforce and t0 + rt > dl:
                         continue
                     if fits(w, t0, rt, dem):
+                        if _within_mip_gap(ctx, t0, grid):
+                            ctx.probe("c14_within_mip_gap")
+                            continue
                         ctx.violate("C14", "plan_not_maximal",
                                     f"{name} at t={now}: offered task {t.unique_name} is left unplaced although it "
                                     f"can be added at slot {t0} on worker {w.name} with strategy runtime {rt} "
@@ -218,3 +221,21 @@ def check_c14_maximal(ctx, sched, now, task_pl, offered):
                                      "zero_runtime": rt == 0,
                                      "unplaced_task_is_sink": not ctx.children.get(s.base, {}).get(s.node)})
                         return
+
+
+def _within_mip_gap(ctx, t0, grid):
+    """TetriSched-Gurobi stops at a relative MIP gap of 10 %: a placement whose reward (2 at the first grid slot,
+    falling linearly to 1 at the last) is no more than that share of the incumbent objective may legitimately be
+    left out -- the solver's documented stopping rule, not a property violation (false alarm at VERIF_SEED=7)."""
+    if ctx.policy_name != "TetriSchedGurobi":
+        return False
+    from . import policies
+
+    obj = policies.LAST_SOLVE.get("obj")
+    gap = policies.LAST_SOLVE.get("gap_param") or 0.0
+    if obj is None or gap <= 0:
+        return False
+    span = grid[-1] - grid[0]
+    reward = 2.0 if span <= 0 else 2.0 - (t0 - grid[0]) / span
+    return reward <= gap * abs(obj) + 1e-9
+
